@@ -422,12 +422,77 @@ fn sub_sweep(input: &[u8], st: &mut Stats) -> R {
     check_words(&d, st, &|| format!("in-function {}", show_inst(&p.inst())))
 }
 
+/// `ext-inst-contexts`: an extended instruction whose set operand names a real OpExtInstImport
+/// (semantic sets, NonSemantic.* sets, unknown and empty names) at every position relative to
+/// functions and blocks. At module scope it is a context-dependent module-scope instruction (outside
+/// the claim); inside a function but outside a block it is not module-level by any reading and must
+/// be reported as detached; inside a block it is a block instruction.
+const EXT_SETS: [&str; 8] = ["GLSL.std.450", "OpenCL.std", "NonSemantic.DebugPrintf", "NonSemantic.Shader.DebugInfo.100", "NonSemantic.ClspvReflection.5", "NonSemantic.", "Some.Unknown.Set", ""];
+fn sub_ext_inst_contexts(input: &[u8], st: &mut Stats) -> R {
+    let k = idx(input) as usize;
+    let (pos, rest) = (k % 6, k / 6);
+    let (opi, seti) = (rest % 2, rest / 2);
+    if seti >= EXT_SETS.len() {
+        return Ok(());
+    }
+    let opcode: u32 = [12, 4433][opi]; // OpExtInst, OpExtInstWithForwardRefsKHR
+    let mut w = header_words((1, 6), 200);
+    let mut imp = vec![11u32, 1];
+    imp.extend(str_words(EXT_SETS[seti]));
+    imp[0] |= (imp.len() as u32) << 16;
+    w.extend(imp);
+    w.extend([0x0002_0013, 2]); // %2 = OpTypeVoid
+    w.extend([0x0003_0021, 3, 2]); // %3 = OpTypeFunction %2
+    let ext: Vec<u32> = vec![(6 << 16) | opcode, 2, 50, 1, 1 + (k as u32 % 7), 2]; // %50 = OpExtInst %2 %1 n %2
+    let label = |id: u32| vec![0x0002_00f8u32, id];
+    let func = vec![0x0005_0036u32, 2, 40, 0, 3];
+    if pos == 0 {
+        w.extend(&ext);
+    }
+    w.extend(&func);
+    match pos {
+        1 => {
+            w.extend(&ext);
+            w.extend(label(41));
+            w.extend(W_RETURN);
+        }
+        2 => {
+            w.extend(label(41));
+            w.extend(W_RETURN);
+            w.extend(&ext);
+            w.extend(label(42));
+            w.extend(W_RETURN);
+        }
+        3 => {
+            w.extend(label(41));
+            w.extend(W_RETURN);
+            w.extend(&ext);
+        }
+        4 => w.extend(&ext),
+        5 => {
+            w.extend(label(41));
+            w.extend(&ext);
+            w.extend(W_RETURN);
+        }
+        _ => {
+            w.extend(label(41));
+            w.extend(W_RETURN);
+        }
+    }
+    w.extend(W_FUNCTION_END);
+    st.evaluations += 1;
+    st.nontrivial(k as u64);
+    let where_ = ["module scope", "between OpFunction and the first label", "between two blocks", "after the last block", "in a function without blocks", "inside a block"][pos];
+    check_words(&w, st, &|| format!("Op{} on an import of {:?}, {}", if opi == 0 { "ExtInst" } else { "ExtInstWithForwardRefsKHR" }, EXT_SETS[seti], where_))
+}
+
 pub const SUBS: &[Sub] = &[
     Sub { name: "opcode-contexts", f: sub_sweep },
     Sub { name: "alphabet", f: sub_alphabet },
     Sub { name: "modules", f: sub_modules },
     Sub { name: "edge-ids", f: sub_edge_ids },
     Sub { name: "entry-points", f: sub_entry_points },
+    Sub { name: "ext-inst-contexts", f: sub_ext_inst_contexts },
 ];
 
 pub fn run(ctx: &Ctx) {
@@ -438,6 +503,7 @@ pub fn run(ctx: &Ctx) {
     drive_random(ctx, &SUBS[2], ctx.n(40_000, 20_000_000), 1600);
     drive_random(ctx, &SUBS[3], ctx.n(8_000, 4_000_000), 4000);
     drive_random(ctx, &SUBS[4], ctx.n(10_000, 5_000_000), 1600);
+    drive_enum(ctx, &SUBS[5], (EXT_SETS.len() * 2 * 6) as u64);
     if !ctx.quick() && !ctx.failed() {
         crate::fuzzing::drive_fuzz(ctx, "modules", 200000);
     }
